@@ -28,8 +28,8 @@ import (
 //   - the NIST-mode twin never consults the clock, so "NIST mode is not refused
 //     after the sleep" does not depend on timing at all.
 //
-// Thorough tier only (spec.json), one case per mechanism, sharded so that the
-// sleeps run in parallel.
+// One case per mechanism (quick tier: one per generator kind), sharded so that
+// the sleeps run in parallel.
 
 type timeCase struct {
 	Mech string
@@ -43,11 +43,14 @@ const (
 )
 
 func TestC17_TimeInterval(t *testing.T) {
-	if !h.Thorough() {
-		t.Skip("sleeps 6.3 s per mechanism: thorough tier only (VERIF_TIER=thorough)")
-	}
+	// thorough: every mechanism; quick: one mechanism per generator source file
+	// (hash_drbg.go, hmac_drbg.go, ctr_drbg.go - each keeps its own time stamp),
+	// one shard each so the three 6.3 s sleeps run in parallel (seeded change C17-8-1)
 	h.Sweep(t, h.P{Name: "gm-time-interval"}, func(emit func(timeCase)) {
 		for _, m := range mechs {
+			if !h.Thorough() && m.Name != "hash-sm3" && m.Name != "hmac-sm3" && m.Name != "ctr-sm4" {
+				continue
+			}
 			emit(timeCase{m.Name, gen.Mix(h.Seed, uint64(len(m.Name)), 0x71)})
 		}
 	}, checkTime)
